@@ -29,9 +29,7 @@ def job_derive(job):
                                                    known=known2, grid=grid, ret_obj=True)
     # nested mutable attribute values and a graph attribute (not modelled; part of the raw digest)
     for n in list(g.nodes())[:2]:
-        g.nodes(data=True)  # public view
-        g._node[n]["nest"] = [1, 2]
-        g._node[n]["nestd"] = {"k": [1]}
+        g.add_node(n, nest=[1, 2], nestd={"k": [1]})      # public API: add_node on an existing node updates its attributes
     g.graph["gnest"] = [1]
     lines.append({"op": "observe", "fork": False, "res": "ok", "obs": core.observe(g, L, known2, grid)})
     lo, hi = grid
